@@ -171,10 +171,15 @@ class Gen(object):
     # -- addresses ----------------------------------------------------------------------
     def zone(self):
         r = self.r
+        if self.seg and r.random() < 0.6:
+            # stay in a zone that already has content (overlaps need neighbours)
+            ks = [k for k in self.seg if not (k is not None and k.startswith("@"))]
+            if ks:
+                return r.choice(ks)
         c = r.random()
-        if c < 0.55:
+        if c < 0.5:
             return None
-        if c < 0.92:
+        if c < 0.95:
             return r.choice(SYMS)
         return "@" + r.choice(EXTS)
 
